@@ -97,7 +97,7 @@ GHOST static void mutex_final(void) {
   vs_label_add("contended_locks", contended_locks);
   vs_label_add("trylock_ok", try_ok);
   vs_label_add("trylock_fail", try_fail);
-  if (contended_locks > 0) vs_label_add("nontrivial", 1);
+  if (contended_locks > 0) rt_nontrivial("mutex");
   vs_rt_exit();
 }
 
